@@ -11,6 +11,12 @@ statements wired before it.  `step` is that: resolve the input labels to node id
 the key `(defn, resolved inputs)` up with `Intern.addNode`, bind the label to the node.
 
 `semL` is the order-free reading of the same statements: the expression tree of every label.
+
+The second half (`Schema`, `SDecl`, `stepS`) is the key *as coded*: `InstanceKey` also holds the node's
+resolved `WiringNodeSchema` - six interned schema pointers - and `Wiring::add_node` decides whether a node
+takes part in interning from that record (`schema.output != nullptr`).  `stepP π` is the same statement with
+the schema record seen through a projection `π` before it enters the key: `π = id` is the code, any other
+`π` is a key that forgets part of the resolved type (`Schema.noOutput`: the key without the output schema).
 Core Lean only.
 -/
 namespace HgVerif.InternKey
@@ -81,5 +87,70 @@ def AdmU : List Λ → List (LDecl Λ δ α) → Prop
   | _, [] => True
   | L, d :: rest => (∀ p ∈ d.ins, p.1 ∈ L) ∧ (d.sink = false → d.lbl ∉ L) ∧
       AdmU (if d.sink then L else d.lbl :: L) rest
+
+/-! ### the key as coded: definition + scalars, resolved schema, inputs -/
+
+/-- `WiringNodeSchema` (`graph_wiring.h`): the schema pointers of the resolved node type that enter the key
+    (`resolved_schema_of`: input / output / error_output / recordable_state / scalar / state of the builder's
+    `NodeTypeMetaData`); `none` = `nullptr`; the registry interns schemas, pointer equality is `=` on `τ` -/
+structure Schema (τ : Type) where
+  input : Option τ := none
+  output : Option τ := none
+  errorOutput : Option τ := none
+  recordableState : Option τ := none
+  scalar : Option τ := none
+  state : Option τ := none
+  deriving DecidableEq
+
+/-- one wiring statement with the schema its definition was RESOLVED to (for a generic definition the type
+    variables are bound by the input ports, the scalars, or - an output-only variable - by nothing but the
+    requested output type) -/
+structure SDecl (Λ δ τ α : Type) where
+  lbl : Λ
+  defn : δ                 -- `InstanceKey::def` and `InstanceKey::scalars`
+  schema : Schema τ        -- `InstanceKey::schema`
+  ins : List (Λ × α)       -- `InstanceKey::inputs`, producers still by label
+
+/-- `const bool interns = schema.output != nullptr;` -/
+def SDecl.interns {Λ δ τ α : Type} (d : SDecl Λ δ τ α) : Bool := d.schema.output.isSome
+
+/-- `InstanceKey` after resolution of the producers: ((definition + scalars, schema), inputs) -/
+abbrev SKey (δ τ α : Type) := Key (δ × Schema τ) α
+
+/-- the statement as the generic machinery sees it when the key records `π schema`; output-less nodes bypass
+    the table whatever the key is made of -/
+def SDecl.toL {Λ δ τ α σ : Type} (π : Schema τ → σ) (d : SDecl Λ δ τ α) : LDecl Λ (δ × σ) α :=
+  { lbl := d.lbl, defn := (d.defn, π d.schema), ins := d.ins, sink := !d.interns }
+
+/-- `Wiring::add_node` with a key that records `π schema` -/
+def stepP {σ τ : Type} [DecidableEq δ] [DecidableEq σ] [DecidableEq α] (π : Schema τ → σ)
+    (s : LSt Λ (δ × σ) α) (d : SDecl Λ δ τ α) : LSt Λ (δ × σ) α × Nat := step s (d.toL π)
+
+def wireP {σ τ : Type} [DecidableEq δ] [DecidableEq σ] [DecidableEq α] (π : Schema τ → σ)
+    (s : LSt Λ (δ × σ) α) (ds : List (SDecl Λ δ τ α)) : LSt Λ (δ × σ) α := wireL s (ds.map (·.toL π))
+
+/-- `Wiring::add_node` as coded: the whole schema record is in the key -/
+def stepS {τ : Type} [DecidableEq δ] [DecidableEq τ] [DecidableEq α]
+    (s : LSt Λ (δ × Schema τ) α) (d : SDecl Λ δ τ α) : LSt Λ (δ × Schema τ) α × Nat := stepP id s d
+
+def wireS {τ : Type} [DecidableEq δ] [DecidableEq τ] [DecidableEq α]
+    (s : LSt Λ (δ × Schema τ) α) (ds : List (SDecl Λ δ τ α)) : LSt Λ (δ × Schema τ) α := wireP id s ds
+
+/-- the variant key that leaves the resolved OUTPUT schema out ("implied by the node and its inputs") -/
+def Schema.noOutput {τ : Type} (σ : Schema τ) : Option τ × Option τ × Option τ × Option τ × Option τ :=
+  (σ.input, σ.errorOutput, σ.recordableState, σ.scalar, σ.state)
+
+/-- the variant key that leaves the resolved SCALAR schema out -/
+def Schema.noScalar {τ : Type} (σ : Schema τ) : Option τ × Option τ × Option τ × Option τ × Option τ :=
+  (σ.input, σ.output, σ.errorOutput, σ.recordableState, σ.state)
+
+/-- the order-free reading of the statements as coded: trees whose nodes carry definition, scalars AND the
+    resolved schema -/
+def semS {τ : Type} (ds : List (SDecl Λ δ τ α)) : List (Λ × Tree (δ × Schema τ) α) :=
+  semL [] (ds.map (·.toL id))
+
+/-- admissible statement order (labels declared before use; `AdmSU`: value labels pairwise different) -/
+def AdmS {τ : Type} (L : List Λ) (ds : List (SDecl Λ δ τ α)) : Prop := Adm L (ds.map (·.toL id))
+def AdmSU {τ : Type} (L : List Λ) (ds : List (SDecl Λ δ τ α)) : Prop := AdmU L (ds.map (·.toL id))
 
 end HgVerif.InternKey
